@@ -52,7 +52,8 @@ func loadProgram(repo, verif string) (*Program, error) {
 		inRepo := filepath.Join(repo, dir, "zz_contracts_verif.go")
 		mirror := filepath.Join(verif, "contracts", name+"_zz_contracts_verif.go")
 		src := inRepo
-		if _, err := os.Stat(inRepo); err != nil {
+		// development aid: GOVC_PREFER_MIRROR=1 takes the copy under <verif>/contracts even when the tree has the file
+		if _, err := os.Stat(inRepo); err != nil || os.Getenv("GOVC_PREFER_MIRROR") != "" {
 			data, err2 := os.ReadFile(mirror)
 			if err2 != nil {
 				continue
